@@ -140,6 +140,7 @@ where
     let file_filter = Regex::new(&format!("^(?:{file_filter})$"))?;
 
     let mut current_file = None;
+    let mut after_pre_image_header = false;
 
     let mut files = HashSet::new();
     let mut ranges = vec![];
@@ -148,7 +149,12 @@ where
 
         if let Some(captures) = diff_pattern.captures(&line) {
             current_file = Some(captures.get(1).unwrap().as_str().to_owned());
+        } else if after_pre_image_header && line.starts_with("+++ ") {
+            // A post-image header with fewer components than we were asked to strip: its hunks
+            // belong to no file we know, and certainly not to the previous one.
+            current_file = None;
         }
+        after_pre_image_header = line.starts_with("--- ");
 
         let file = match current_file {
             Some(ref f) => &**f,
